@@ -549,3 +549,218 @@ Definition expected_pps (v : pps_syntax) : pps :=
         (tl && transform_8x8_mode_flag v) spf
         (if spf then expected_scaling_lists 0 (pic_scaling_lists v) else [])
         (if tl then second_chroma_qp_index_offset v else 0%Z).
+
+(* ------------------------------------------------------------------ slice_header (7.3.3) *)
+Record pwt_entry_syntax := mkPwt {
+  pwt_luma : option (Z * Z);                     (* luma_weight_flag: weight, offset *)
+  pwt_chroma : option (Z * Z * Z * Z) }.         (* chroma_weight_flag: weight/offset for j = 0, 1 *)
+
+Record slice_syntax := mkSliceSyn {
+  sl_nal_ref_idc : N; sl_nal_unit_type : N;      (* 1 = non-IDR slice, 5 = IDR slice *)
+  first_mb_in_slice : N; slice_type : N; sl_pic_parameter_set_id : N;
+  colour_plane_id : N; frame_num : N; field_pic_flag : bool; bottom_field_flag : bool;
+  idr_pic_id : N; pic_order_cnt_lsb : N; delta_pic_order_cnt_bottom : Z;
+  delta_pic_order_cnt0 : Z; delta_pic_order_cnt1 : Z; redundant_pic_cnt : N;
+  direct_spatial_mv_pred_flag : bool; num_ref_idx_active_override_flag : bool;
+  num_ref_idx_l0_active_minus1 : N; num_ref_idx_l1_active_minus1 : N;
+  ref_pic_list_modification_flag_l0 : bool; rplm_l0 : list (N * N);   (* (modification_of_pic_nums_idc in 0..2, value); the closing 3 is implicit *)
+  ref_pic_list_modification_flag_l1 : bool; rplm_l1 : list (N * N);
+  luma_log2_weight_denom : N; chroma_log2_weight_denom : N;
+  pwt_l0 : list pwt_entry_syntax; pwt_l1 : list pwt_entry_syntax;
+  no_output_of_prior_pics_flag : bool; long_term_reference_flag : bool;
+  adaptive_ref_pic_marking_mode_flag : bool;
+  mmco : list (N * N * N);                       (* (memory_management_control_operation in 1..6, arg, arg2); the closing 0 is implicit *)
+  cabac_init_idc : N; slice_qp_delta : Z; sp_for_switch_flag : bool; slice_qs_delta : Z;
+  disable_deblocking_filter_idc : N; slice_alpha_c0_offset_div2 : Z; slice_beta_offset_div2 : Z;
+  slice_group_change_cycle : N;
+  slice_data : list bool }.                      (* what follows the header in the NAL unit *)
+
+Section SliceSyntax.
+  Variable sp : sps_syntax.                      (* the active SPS: the one the PPS refers to *)
+  Variable pp : pps_syntax.                      (* the PPS selected by pic_parameter_set_id *)
+  Variable v : slice_syntax.
+
+  Definition sl_type5 : N := slice_type v mod 5.
+  Definition is_P : bool := sl_type5 =? 0.
+  Definition is_B : bool := sl_type5 =? 1.
+  Definition is_I : bool := sl_type5 =? 2.
+  Definition is_SP : bool := sl_type5 =? 3.
+  Definition is_SI : bool := sl_type5 =? 4.
+  Definition idr_pic : bool := sl_nal_unit_type v =? 5.
+
+  Definition sl_separate_colour_plane : bool := eff_separate_colour_plane sp.
+  Definition sl_field_pic : bool := negb (frame_mbs_only_flag sp) && field_pic_flag v.
+  Definition sl_poc0 : bool := pic_order_cnt_type sp =? 0.
+  Definition sl_poc1 : bool := (pic_order_cnt_type sp =? 1) && negb (delta_pic_order_always_zero_flag sp).
+  Definition sl_bottom_delta : bool := bottom_field_pic_order_in_frame_present_flag pp && negb sl_field_pic.
+  Definition sl_has_ref_idx : bool := is_P || is_SP || is_B.
+  Definition sl_override : bool := sl_has_ref_idx && num_ref_idx_active_override_flag v.
+  (* num_ref_idx_lX_active_minus1 in force: coded, or inferred from the PPS *)
+  Definition eff_l0 : N :=
+    if sl_override then num_ref_idx_l0_active_minus1 v else num_ref_idx_l0_default_active_minus1 pp.
+  Definition eff_l1 : N :=
+    if sl_override then (if is_B then num_ref_idx_l1_active_minus1 v else 0)
+    else num_ref_idx_l1_default_active_minus1 pp.
+  Definition sl_has_pwt : bool :=
+    (weighted_pred_flag pp && (is_P || is_SP)) || ((weighted_bipred_idc pp =? 1) && is_B).
+  Definition sl_cat_nonzero : bool := negb (chroma_array_type sp =? 0).
+  Definition sl_has_fmo_cycle : bool :=
+    (0 <? num_slice_groups_minus1 pp) && (3 <=? slice_group_map_type pp) && (slice_group_map_type pp <=? 5).
+  (* Ceil(Log2(PicSizeInMapUnits / SliceGroupChangeRate + 1)), exact division *)
+  Definition slice_group_change_cycle_bits : N :=
+    let size := (pic_width_in_mbs_minus1 sp + 1) * (pic_height_in_map_units_minus1 sp + 1) in
+    let rate := slice_group_change_rate_minus1 pp + 1 in
+    N.log2_up ((size + rate - 1) / rate + 1).
+
+  Definition ser_rplm_entry (e : N * N) : list bool := ue_bits (fst e) ++ ue_bits (snd e).
+  Definition ser_rplm (flag : bool) (l : list (N * N)) : list bool :=
+    fl flag ++ opt_bits flag (flat_map ser_rplm_entry l ++ ue_bits 3).
+
+  Definition ser_pwt_entry (e : pwt_entry_syntax) : list bool :=
+    (match pwt_luma e with
+     | None => fl false
+     | Some (w, o) => fl true ++ se_bits w ++ se_bits o
+     end)
+    ++ opt_bits sl_cat_nonzero
+         (match pwt_chroma e with
+          | None => fl false
+          | Some (w0, o0, w1, o1) => fl true ++ se_bits w0 ++ se_bits o0 ++ se_bits w1 ++ se_bits o1
+          end).
+
+  Definition ser_mmco (e : N * N * N) : list bool :=
+    let '(op, a, b) := e in
+    ue_bits op
+    ++ opt_bits ((op =? 1) || (op =? 3)) (ue_bits a)          (* difference_of_pic_nums_minus1 *)
+    ++ opt_bits (op =? 2) (ue_bits a)                         (* long_term_pic_num *)
+    ++ opt_bits (op =? 3) (ue_bits b)                         (* long_term_frame_idx *)
+    ++ opt_bits (op =? 6) (ue_bits a)                         (* long_term_frame_idx *)
+    ++ opt_bits (op =? 4) (ue_bits a).                        (* max_long_term_frame_idx_plus1 *)
+
+  Definition ser_slice_header : list bool :=
+    ue_bits (first_mb_in_slice v) ++ ue_bits (slice_type v) ++ ue_bits (sl_pic_parameter_set_id v)
+    ++ opt_bits sl_separate_colour_plane (u 2 (colour_plane_id v))
+    ++ u (log2_max_frame_num_minus4 sp + 4) (frame_num v)
+    ++ opt_bits (negb (frame_mbs_only_flag sp))
+         (fl (field_pic_flag v) ++ opt_bits (field_pic_flag v) (fl (bottom_field_flag v)))
+    ++ opt_bits idr_pic (ue_bits (idr_pic_id v))
+    ++ opt_bits sl_poc0
+         (u (log2_max_pic_order_cnt_lsb_minus4 sp + 4) (pic_order_cnt_lsb v)
+          ++ opt_bits sl_bottom_delta (se_bits (delta_pic_order_cnt_bottom v)))
+    ++ opt_bits sl_poc1
+         (se_bits (delta_pic_order_cnt0 v) ++ opt_bits sl_bottom_delta (se_bits (delta_pic_order_cnt1 v)))
+    ++ opt_bits (redundant_pic_cnt_present_flag pp) (ue_bits (redundant_pic_cnt v))
+    ++ opt_bits is_B (fl (direct_spatial_mv_pred_flag v))
+    ++ opt_bits sl_has_ref_idx
+         (fl (num_ref_idx_active_override_flag v)
+          ++ opt_bits (num_ref_idx_active_override_flag v)
+               (ue_bits (num_ref_idx_l0_active_minus1 v)
+                ++ opt_bits is_B (ue_bits (num_ref_idx_l1_active_minus1 v))))
+    ++ opt_bits (negb is_I && negb is_SI) (ser_rplm (ref_pic_list_modification_flag_l0 v) (rplm_l0 v))
+    ++ opt_bits is_B (ser_rplm (ref_pic_list_modification_flag_l1 v) (rplm_l1 v))
+    ++ opt_bits sl_has_pwt
+         (ue_bits (luma_log2_weight_denom v)
+          ++ opt_bits sl_cat_nonzero (ue_bits (chroma_log2_weight_denom v))
+          ++ flat_map ser_pwt_entry (pwt_l0 v)
+          ++ opt_bits is_B (flat_map ser_pwt_entry (pwt_l1 v)))
+    ++ opt_bits (negb (sl_nal_ref_idc v =? 0))
+         (if idr_pic
+          then fl (no_output_of_prior_pics_flag v) ++ fl (long_term_reference_flag v)
+          else fl (adaptive_ref_pic_marking_mode_flag v)
+               ++ opt_bits (adaptive_ref_pic_marking_mode_flag v) (flat_map ser_mmco (mmco v) ++ ue_bits 0))
+    ++ opt_bits (entropy_coding_mode_flag pp && negb is_I && negb is_SI) (ue_bits (cabac_init_idc v))
+    ++ se_bits (slice_qp_delta v)
+    ++ opt_bits (is_SP || is_SI)
+         (opt_bits is_SP (fl (sp_for_switch_flag v)) ++ se_bits (slice_qs_delta v))
+    ++ opt_bits (deblocking_filter_control_present_flag pp)
+         (ue_bits (disable_deblocking_filter_idc v)
+          ++ opt_bits (negb (disable_deblocking_filter_idc v =? 1))
+               (se_bits (slice_alpha_c0_offset_div2 v) ++ se_bits (slice_beta_offset_div2 v)))
+    ++ opt_bits sl_has_fmo_cycle (u slice_group_change_cycle_bits (slice_group_change_cycle v)).
+
+  Definition raw_slice : list N :=
+    raw_nalu (sl_nal_ref_idc v) (sl_nal_unit_type v) (ser_slice_header ++ slice_data v).
+  Definition nalu_slice : list N :=
+    nalu_of (sl_nal_ref_idc v) (sl_nal_unit_type v) (ser_slice_header ++ slice_data v).
+
+  Definition rplm_entry_ok (e : N * N) : bool := (fst e <=? 2) && ue_ok (snd e).
+  Definition pwt_entry_ok (e : pwt_entry_syntax) : bool :=
+    (match pwt_luma e with None => true | Some (w, o) => se_ok w && se_ok o end)
+    && (match pwt_chroma e with
+        | None => true
+        | Some (a, b, c, d) => se_ok a && se_ok b && se_ok c && se_ok d
+        end).
+  Definition mmco_ok (e : N * N * N) : bool :=
+    let '(op, a, b) := e in (1 <=? op) && (op <=? 6) && ue_ok a && ue_ok b.
+
+  Definition slice_valid : bool :=
+    (sl_nal_ref_idc v <? 4) && ((sl_nal_unit_type v =? 1) || (sl_nal_unit_type v =? 5))
+    && ue_ok (first_mb_in_slice v) && (slice_type v <=? 9)
+    && (sl_pic_parameter_set_id v =? pic_parameter_set_id pp)
+    && (colour_plane_id v <? 3)
+    && (frame_num v <? 2 ^ (log2_max_frame_num_minus4 sp + 4))
+    && (idr_pic_id v <? 65536)
+    && (pic_order_cnt_lsb v <? 2 ^ (log2_max_pic_order_cnt_lsb_minus4 sp + 4))
+    && se_ok (delta_pic_order_cnt_bottom v) && se_ok (delta_pic_order_cnt0 v) && se_ok (delta_pic_order_cnt1 v)
+    && (redundant_pic_cnt v <=? 127)
+    && (num_ref_idx_l0_active_minus1 v <=? 31) && (num_ref_idx_l1_active_minus1 v <=? 31)
+    && forallb rplm_entry_ok (rplm_l0 v) && (lenN (rplm_l0 v) <=? 1000)
+    && forallb rplm_entry_ok (rplm_l1 v) && (lenN (rplm_l1 v) <=? 1000)
+    && ue_ok (luma_log2_weight_denom v) && ue_ok (chroma_log2_weight_denom v)
+    && (if sl_has_pwt then (lenN (pwt_l0 v) =? eff_l0 + 1) && (if is_B then lenN (pwt_l1 v) =? eff_l1 + 1 else true)
+        else true)
+    && forallb pwt_entry_ok (pwt_l0 v) && forallb pwt_entry_ok (pwt_l1 v)
+    && forallb mmco_ok (mmco v) && (lenN (mmco v) <=? 1000)
+    && (cabac_init_idc v <=? 2) && se_ok (slice_qp_delta v) && se_ok (slice_qs_delta v)
+    && (disable_deblocking_filter_idc v <=? 2)
+    && se_ok (slice_alpha_c0_offset_div2 v) && se_ok (slice_beta_offset_div2 v)
+    && (slice_group_change_cycle v <? 2 ^ slice_group_change_cycle_bits).
+
+  (* the Go struct keeps ONE value of the repeated elements: the last one coded *)
+  Definition last_rplm (sel : N -> bool) (l : list (N * N)) (d : N) : N :=
+    fold_left (fun acc e => if sel (fst e) then snd e else acc) l d.
+  Definition rplm_all : list (N * N) :=
+    (if negb is_I && negb is_SI && ref_pic_list_modification_flag_l0 v then rplm_l0 v else [])
+    ++ (if is_B && ref_pic_list_modification_flag_l1 v then rplm_l1 v else []).
+  Definition mmco_run : list (N * N * N) :=
+    if negb (sl_nal_ref_idc v =? 0) && negb idr_pic && adaptive_ref_pic_marking_mode_flag v then mmco v else [].
+  Definition last_mmco (sel : N -> bool) (proj : N * N * N -> N) (d : N) : N :=
+    fold_left (fun acc e => if sel (fst (fst e)) then proj e else acc) mmco_run d.
+
+  Definition expected_slice : slice_hdr :=
+    let n (c : bool) (x : N) := if c then x else 0 in
+    let zz (c : bool) (x : Z) := if c then x else 0%Z in
+    let marking := negb (sl_nal_ref_idc v =? 0) in
+    let rp0 := negb is_I && negb is_SI && ref_pic_list_modification_flag_l0 v in
+    let rp1 := is_B && ref_pic_list_modification_flag_l1 v in
+    let dbf := deblocking_filter_control_present_flag pp in
+    let hdr_bits := 8 + lenN ser_slice_header in
+    mkSh (slice_type v) (first_mb_in_slice v) (sl_pic_parameter_set_id v) (pps_seq_parameter_set_id pp)
+         (n sl_separate_colour_plane (colour_plane_id v)) (frame_num v) (n idr_pic (idr_pic_id v))
+         (n sl_poc0 (pic_order_cnt_lsb v))
+         (zz (sl_poc0 && sl_bottom_delta) (delta_pic_order_cnt_bottom v))
+         (zz sl_poc1 (delta_pic_order_cnt0 v)) (zz (sl_poc1 && sl_bottom_delta) (delta_pic_order_cnt1 v))
+         (n (redundant_pic_cnt_present_flag pp) (redundant_pic_cnt v))
+         (n sl_has_ref_idx eff_l0) (n sl_has_ref_idx eff_l1)
+         (n (rp0 || rp1) 3)
+         (last_rplm (fun i => (i =? 0) || (i =? 1)) rplm_all 0)
+         (last_mmco (fun op => op =? 2) (fun e => snd (fst e)) (last_rplm (fun i => i =? 2) rplm_all 0))
+         0
+         (n sl_has_pwt (luma_log2_weight_denom v)) (n (sl_has_pwt && sl_cat_nonzero) (chroma_log2_weight_denom v))
+         (last_mmco (fun op => (op =? 1) || (op =? 3)) (fun e => snd (fst e)) 0)
+         (last_mmco (fun op => (op =? 3) || (op =? 6)) (fun e => if fst (fst e) =? 3 then snd e else snd (fst e)) 0)
+         (last_mmco (fun op => op =? 4) (fun e => snd (fst e)) 0)
+         (n (entropy_coding_mode_flag pp && negb is_I && negb is_SI) (cabac_init_idc v))
+         (slice_qp_delta v) (zz (is_SP || is_SI) (slice_qs_delta v))
+         (n dbf (disable_deblocking_filter_idc v))
+         (zz (dbf && negb (disable_deblocking_filter_idc v =? 1)) (slice_alpha_c0_offset_div2 v))
+         (zz (dbf && negb (disable_deblocking_filter_idc v =? 1)) (slice_beta_offset_div2 v))
+         (n sl_has_fmo_cycle (slice_group_change_cycle v))
+         (nbytes_at raw_slice hdr_bits)
+         sl_field_pic (sl_field_pic && bottom_field_flag v)
+         (is_B && direct_spatial_mv_pred_flag v) sl_override
+         rp0 rp1
+         (marking && idr_pic && no_output_of_prior_pics_flag v)
+         (marking && idr_pic && long_term_reference_flag v)
+         (is_SP && sp_for_switch_flag v)
+         (marking && negb idr_pic && adaptive_ref_pic_marking_mode_flag v).
+End SliceSyntax.
